@@ -3,6 +3,7 @@ mod absout;
 mod cli;
 mod concretise;
 mod facets;
+mod infoset;
 mod lexer;
 mod multiref;
 mod mutate;
@@ -74,6 +75,7 @@ fn main() {
             }
         }
         "digest" => run::digest_main(&args[2]),
+        "infoset" => infoset::convert_file(&args[2], &args[3]),
         "abstract" => {
             let text = std::fs::read_to_string(&args[2]).expect("file");
             println!("{}", serde_json::to_string_pretty(&absout::abstract_output(&text)).unwrap());
